@@ -771,6 +771,31 @@ Theorem setdefault_absent_inserts_r c k x dflt : reachable K V keqb lower c -> c
   step c (OSetdefault k x) = (setitem c k x, EOk (RVal x)).
 Proof. intros R. apply setdefault_absent_inserts. apply reachable_inv, R. Qed.
 
+(* ------------------------------------------------------------------ helpers for several live containers *)
+Lemma init_cls_ok cl pairs : cl <> ClsDefault -> cls_ok (ci_init K V keqb lower cl pairs) None.
+Proof.
+  intros N. destruct (update_abs pairs _ (empty_inv cl FacNone)) as (_ & _ & SK).
+  apply (cls_ok_same _ _ _ SK). unfold CIRel.cls_ok. cbn. destruct cl; congruence.
+Qed.
+Lemma supdate_fresh_gen : forall (l : list (K * V)) acc, NoDup (map fst acc ++ map (fun p => lower (fst p)) l) ->
+  sm_update K V keqb lower acc l = acc ++ map (fun p => (lower (fst p), (fst p, snd p))) l.
+Proof.
+  induction l as [|[k v] l IH]; intros acc ND; cbn; [rewrite app_nil_r; reflexivity|].
+  unfold sm_update in *. cbn. unfold sm_set at 2. rewrite sput_fresh.
+  - rewrite IH; [rewrite <- app_assoc; reflexivity|]. rewrite map_app, <- app_assoc. exact ND.
+  - apply sfind_none_notin. cbn in ND. apply NoDup_remove_2 in ND. intros I. apply ND. apply in_or_app. left. exact I.
+Qed.
+(* inserting the items of a reference map into an empty one gives the same map: a copy is a copy *)
+Lemma copy_identity m : sinv m -> sm_update K V keqb lower [] (sm_items K V m) = m.
+Proof.
+  intros [ND F]. rewrite supdate_fresh_gen.
+  - cbn. unfold sm_items. rewrite map_map. clear ND. induction F as [|[kl [sp v]] m He F IH]; cbn in *; [reflexivity|].
+    rewrite He. f_equal. exact IH.
+  - cbn. unfold sm_items. rewrite map_map. cbn.
+    replace (map (fun x => lower (fst (snd x))) m) with (map fst m); [exact ND|].
+    clear ND. induction F as [|e m He F IH]; cbn; [reflexivity|]. rewrite He, IH. reflexivity.
+Qed.
+
 (* every reachable container has a working class/default pairing: the hypothesis cls_ok of the corollaries
    is always satisfiable *)
 Theorem reachable_cls_ok c : reachable K V keqb lower c -> exists dflt, cls_ok c dflt.
